@@ -5,7 +5,7 @@ import ast
 import re
 
 from sa import flow
-from sa.model import AnalysisError, dotted, unparse
+from sa.model import AnalysisError, dotted, names_in, unparse
 from sa.rules import LEVEL_TEXT, rule
 from sa.rules.util import bind_call, ctor_target, iter_body_nodes, own_methods, qual, reads_of_self
 
@@ -458,3 +458,64 @@ def r10g(ctx):
             else:
                 ctx.bad(cid, K.loc, f"{K.qual} reads `self.{pname}` in its own methods but inherits it from {L.qual}, where it compares the partition counts of the inputs; {L.name}._lower repartitions / shuffles those inputs before building {K.name}, so the lowered node can decide differently from the planner (the broadcast side flips when the npartitions hint is below the small side's partition count: wrong join result)")
     ctx.floor("size-derived planner decisions read by physical twins", n, 1)
+
+
+# ---------------------------------------------------------------------------------------------
+# R10h
+# ---------------------------------------------------------------------------------------------
+
+
+@rule(
+    "R10h",
+    ["C10", "C02"],
+    """THE PRESORTED VERDICT LOOKS AT MISSING KEYS: _calculate_divisions decides "the input is already ordered across partitions" from
+    per-partition summaries computed with M.min / M.max, which SKIP missing values. A missing key belongs into the last (first)
+    partition of a sort wherever it sits now, so the verdict must also consult a per-partition null test of the DATA (a
+    map_partitions of a function that calls isna / isnull / notna / hasnans / count) - `mins.isna()` only catches partitions that are
+    entirely null. Without it sort_values('t') on [0, 1, nan, 3 | 4, nan, 6, 7] left NaN in the middle of the output.""",
+)
+def r10h(ctx):
+    model = ctx.model
+    mod, fn = model.func("_shuffle", "_calculate_divisions")
+    defs = flow.Defs(fn)
+    # names bound from the elements of compute(...)
+    null_vars = set()
+    skipping = False
+    for st in ast.walk(fn):
+        if isinstance(st, ast.Assign) and isinstance(st.value, ast.Call) and dotted(st.value.func) == "compute" and isinstance(st.targets[0], ast.Tuple):
+            for tgt, el in zip(st.targets[0].elts, st.value.args):
+                t = ast.unparse(el)
+                if "map_partitions(M.min" in t or "map_partitions(M.max" in t:
+                    skipping = True
+                for c in (x for x in ast.walk(el) if isinstance(x, ast.Call) and isinstance(x.func, ast.Attribute) and x.func.attr == "map_partitions" and x.args):
+                    f0 = c.args[0]
+                    body = ""
+                    if isinstance(f0, ast.Name):
+                        r = model.resolve_name(mod, f0.id)
+                        if r is not None and r[0] == "func":
+                            body = ast.unparse(r[2])
+                    elif isinstance(f0, ast.Lambda):
+                        body = ast.unparse(f0)
+                    else:
+                        body = ast.unparse(f0)
+                    if re.search(r"isna\(|isnull\(|notna\(|notnull\(|hasnans|M\.count|\.count\(", body) and isinstance(tgt, ast.Name):
+                        null_vars.add(tgt.id)
+    if not skipping:
+        raise AnalysisError("anchor vanished: per-partition M.min / M.max summaries in _calculate_divisions")
+    # the decision: every assignment to `presorted` (name taken from the returned tuple's last element)
+    ret = next((r for r in ast.walk(fn) if isinstance(r, ast.Return) and isinstance(r.value, ast.Tuple)), None)
+    if ret is None or not isinstance(ret.value.elts[-1], ast.Name):
+        raise AnalysisError("anchor vanished: the presorted flag returned by _calculate_divisions")
+    flag = ret.value.elts[-1].id
+    consulted = False
+    for st in ast.walk(fn):
+        if isinstance(st, ast.Assign) and any(isinstance(t, ast.Name) and t.id == flag for t in st.targets):
+            p = flow.point_of(fn, st)
+            read = names_in(st.value) | {nm for g, pol in (p.guards if p else []) for nm in names_in(g)}
+            if read & null_vars:
+                consulted = True
+    cid = "_shuffle._calculate_divisions:presorted-vs-missing-keys"
+    if consulted:
+        ctx.ok(cid, mod.loc(fn), f"the presorted verdict consults the per-partition null test {sorted(null_vars)}")
+    else:
+        ctx.bad(cid, mod.loc(ret), "the presorted verdict is derived from M.min / M.max summaries only, which skip missing keys: a NaN / NaT / NA key in a partition that is not the last stays where it is (sort_values only sorts inside the partitions on the fast path), so the output of a sort is not sorted and depends on the npartitions hint; set_index claims divisions around the missing label")
